@@ -351,6 +351,12 @@ def _binop_heap(ip, op, a, b):
     if op is ast.Mult:
         if isinstance(a, Loc) and st.cell(a)['k'] == 'list' and 'items' in st.cell(a) and isinstance(b, int):
             return ip.new_list(st.cell(a)['items'] * b)
+        if isinstance(a, Loc) and st.cell(a)['k'] == 'list' and len(st.cell(a).get('items', ())) == 1 and kind_of(b) == 'int' \
+                and kind_of(st.cell(a)['items'][0]) == 'int':
+            # idiom [x] * n with a symbolic count: the list of n copies of the integer x (spec repeat_byte)
+            rb = ip.reg.get_spec('repeat_byte')
+            r = call_spec(ip, rb, [st.cell(a)['items'][0], b], {})
+            return st.alloc({'k': 'list', 'seq': SV(lift(r, 'bytes').e, ('seq', 'int'))})
     raise Unsupported("binop %s on heap values" % op.__name__)
 
 
@@ -546,8 +552,9 @@ def contains(ip, container, x):
             items = c['items']
         elif c['k'] == 'obj':
             return ip.call_method(container, '__contains__', [x], {})
-        elif c['k'] == 'sset':
-            return SV(simp(z3.Select(c['arr'], lift(x, c['ek']).e)), 'bool')
+        elif c['k'] == 'set' and 'elems' in c:
+            e_ = c['elems']
+            return SV(simp(z3.Contains(e_.e, z3.Unit(lift(x, e_.kind[1]).e))), 'bool')
     elif isinstance(container, (tuple, list, set, frozenset, dict, range)) or type(container).__name__ in ('dict_keys',):
         if not has_sym(x) and not has_sym(tuple(container)) if not isinstance(container, range) else not has_sym(x):
             return x in container
@@ -637,6 +644,8 @@ def seq_len(ip, v):
         if k == 'dict':
             return len(c['d'])
         if k == 'set':
+            if 'elems' in c:
+                raise Unsupported("len of an abstract set")
             return len(c['items'])
         if k == 'obj':
             return ip.call_method(v, '__len__', [], {})
